@@ -132,12 +132,18 @@ def isValid (mem : List Nat) (len : Nat) : Res Bool := isValidLoop mem len 0 len
 
 /-! ## `String::fromHex(const byte* data, usize size)` -/
 
-/-- the source range is the list; both alphabet reads are checked table reads -/
-def fromHex : List Nat → Res (List Nat)
-  | [] => .ok []
-  | b :: rest =>
-    (rd hexAlphabet (hexHi b)).bind fun h => (rd hexAlphabet (hexLo b)).bind fun l =>
-      (fromHex rest).bind fun r => .ok (h :: l :: r)
+/-- the loop over the source bytes (the source range is the list itself); `d` is the offset of
+    `dest` in the result buffer `out` (`result.resize(size * 2)`); alphabet reads and the two
+    stores per byte are checked -/
+def fromHexLoop : List Nat → Nat → List Nat → Res (List Nat)
+  | [], _, out => .ok out
+  | b :: rest, d, out =>
+    (rd hexAlphabet (hexHi b)).bind fun h => (wr out d h).bind fun o1 =>
+      (rd hexAlphabet (hexLo b)).bind fun l => (wr o1 (d + 1) l).bind fun o2 =>
+        fromHexLoop rest (d + 2) o2
+
+def fromHex (data : List Nat) : Res (List Nat) :=
+  fromHexLoop data 0 (List.replicate (data.length * 2) 0)
 
 /-! ## `String::fromBase64(const String& data)` -/
 
